@@ -153,5 +153,19 @@ def search(rng, bad_cases):
 
 ENABLED = True
 LEVEL = "proof"
-LEVEL_TEXT = "pending"
-LEVEL_NOTE = "pending"
+LEVEL_TEXT = ("Theorems in coq/theories/Properties/C32.v about a Gallina mirror of Proxy::receive_signal(s): subscribe_dest_owner_change, "
+              "SignalStream::new (ordered join of the NameOwnerChanged stream with the GetNameOwner reply, buffered notification), "
+              "SignalStream::filter / poll_next_before, MatchRule::matches, the socket reader's in-order fan-out, MessageStream's "
+              "NoneBefore rule, PendingMethodCall, and a line-by-line transcription of ordered_stream::Join. For every bus history and "
+              "EVERY interleaving of socket reader, stream creation and consumer (induction over the schedule): what is yielded is a "
+              "prefix of the list the specification demands (wanted signals whose sender is the owner established by the lookup and "
+              "the driver's later notifications), all of it once everything is read and polled; forged ownership claims can be "
+              "replaced by noise without changing any run; the panic site is unreachable. PARTIAL: the full statement is refuted "
+              "by the faithful model in two classes (a buffered release notification is dropped; a proxy on interface "
+              "org.freedesktop.DBus trusts peers' claims), both confirmed on the real code and listed as known findings.")
+LEVEL_NOTE = ("Trusted: Coq kernel; the hand-written model, tied to the code by running the real Proxy/SignalStream over a real bus "
+              "connection against an in-process scripted bus on ~14k (quick) histories x batchings and comparing yielded messages, "
+              "completion and the calls made; the substrate contracts in ASSUMPTIONS (single in-order reader, broadcast channels "
+              "without loss, executor fairness not needed: safety only). The correspondence exercises schedules of the shape "
+              "'read a batch, run every task to quiescence, poll'; finer interleavings are covered by the theorem only. Bus "
+              "histories that a sequential, stamping bus cannot produce are compared model-vs-code but not against the specification.")
